@@ -117,11 +117,10 @@ fn enabled(r: &Ref, u: usize) -> Vec<Op> {
     }
     for p in 0..u {
         for q in 0..u {
-            // call-site precondition (build_package.rs): the imported module is registered first;
-            // inc_ref registers the referrer itself
-            if r.nodes.contains(&q) {
-                ops.push(Op::IncRef(p, q));
-            }
+            // inc_ref registers the referrer itself; the imported module need not be registered
+            // yet (the compiler registers it first, but the graph's API does not demand it): the
+            // edge then dangles until the target is added
+            ops.push(Op::IncRef(p, q));
         }
     }
     for p in 0..u {
@@ -134,7 +133,12 @@ fn enabled(r: &Ref, u: usize) -> Vec<Op> {
             }
         }
     }
-    ops.push(Op::Sort);
+    // sort's contract needs every dependency to be a registered module (it answers KeyNotFound
+    // otherwise, which is neither of the two outcomes the property speaks of)
+    let dangling = r.edges.values().any(|d| d.iter().any(|q| !r.nodes.contains(q)));
+    if !dangling {
+        ops.push(Op::Sort);
+    }
     ops
 }
 
